@@ -50,7 +50,8 @@ def is2xx (s : Int) : Bool := 200 ≤ s && s < 300
 def specErr (shape : Shape) (s : Int) (b : Body) : Option ErrKind :=
   if is2xx s then
     -- nil error, the body decoded into the declared result; a body that is not JSON of the result
-    -- type cannot be decoded: the decoder's error (no result ⇒ nothing is decoded)
+    -- type — or that never arrives completely (`broken`) — cannot be decoded: the decoder's error
+    -- (no result ⇒ nothing is decoded)
     if shape = .none ∨ b = .empty ∨ b = .valid then none else some .decode
   else if 400 ≤ s ∧ s ≤ 499 then some .client
   else if 500 ≤ s ∧ s ≤ 599 then some .server
